@@ -9,11 +9,7 @@ import (
 )
 
 func vKey(name string) []byte {
-	n := 1
-	if zz.Thorough() {
-		n = 1 + zz.Choice(name+".len", 2)
-	}
-	return zz.Bytes(name, n)
+	return zz.Bytes(name, 1)
 }
 
 func vBound(name string) []byte {
@@ -26,7 +22,10 @@ func vBound(name string) []byte {
 
 func vParent() *vstore.Mem {
 	m := vstore.New()
-	n := zz.Choice("nparent", 3)
+	n := zz.Choice("nparent", 2)
+	if zz.Thorough() {
+		n = zz.Choice("nparent", 3)
+	}
 	for i := 0; i < n; i++ {
 		k := vKey("pk")
 		for _, e := range m.E {
@@ -90,9 +89,6 @@ func VerifC15_Overlay() {
 	model := parent.Clone()
 	w := NewStore(parent)
 	steps := 2
-	if zz.Thorough() {
-		steps = 3
-	}
 	for i := 0; i < steps; i++ {
 		vStep("s", w, model, i)
 	}
@@ -117,27 +113,38 @@ func VerifC15_Overlay() {
 	zz.Reach("C15.overlay")
 }
 
+// vWrite applies one symbolic Set or Delete.
+func vWrite(tag string, w types.KVStore, model *vstore.Mem, i int) {
+	k := vKey(tag + ".k")
+	if zz.Choice(tag+".op", 2) == 0 {
+		v := []byte{byte(0x10 + i)}
+		w.Set(k, v)
+		model.Set(k, v)
+	} else {
+		w.Delete(k)
+		model.Delete(k)
+	}
+}
+
 // VerifC15_Nested: depth-2 nesting: inner writes become visible in the outer wrapper only at inner.Write,
-// and in the parent only at outer.Write.
+// and in the parent only at outer.Write; a discarded inner wrapper leaves no effect.
 func VerifC15_Nested() {
 	parent := vParent()
 	before := parent.Clone()
 	outerModel := parent.Clone()
 	outer := NewStore(parent)
-	vStep("a", outer, outerModel, 0)
+	vWrite("a", outer, outerModel, 0)
 	inner := outer.CacheWrap().(types.CacheKVStore)
 	innerModel := outerModel.Clone()
-	vStep("b", inner, innerModel, 1)
-	if zz.Thorough() {
-		vStep("c", inner, innerModel, 2)
-	}
-	// outer does not see inner's pending writes
-	snapshot := outerModel.Clone()
-	vObserve("oo", outer, snapshot)
+	vWrite("b", inner, innerModel, 1)
+	// inner sees its own view, outer does not see inner's pending writes
+	k := vKey("probe")
+	zz.Assert("C15.nested.inner-view", innerModel.GetS(k, inner.Get(k)))
+	zz.Assert("C15.nested.outer-isolated", outerModel.GetS(k, outer.Get(k)))
 	switch zz.Choice("end", 2) {
 	case 0:
 		inner.Write()
-		vObserve("oi", outer, innerModel)
+		zz.Assert("C15.nested.outer-sees-inner-after-write", innerModel.IterationOfS(vstore.Drain(outer.Iterator(nil, nil)), nil, nil, true))
 		zz.Assert("C15.nested.parent-unchanged", vstore.SameContentS(parent, before))
 		outer.Write()
 		zz.Assert("C15.nested.parent-equals-inner-view", vstore.SameContentS(parent, innerModel))
